@@ -288,6 +288,20 @@ class RealEngine:
             cfg["encoding"] = "verif-c17"          # utf-8 plus the load hook (public configuration option)
         if c["base"]:
             cfg["context"] = dict(c["base"])
+        if c.get("envloader"):
+            # a loader handed in through the documented `env` option instead of root_dir: the engine's other settings
+            # (relative_includes, context, ...) apply all the same; model: the file-system loader on T
+            fsl = jinja2.FileSystemLoader(T)
+            loader = {"fsl": fsl, "choice": jinja2.ChoiceLoader([jinja2.DictLoader({}), fsl]),
+                      "prefix": jinja2.ChoiceLoader([jinja2.PrefixLoader({"zz": jinja2.DictLoader({})}), fsl])}[c["envloader"]]
+            cfg = {"env": {"loader": loader}}
+            if not (c["rel"] and c.get("rel_default")):
+                cfg["relative_includes"] = c["rel"]          # otherwise the documented default (True) is relied on
+            if c["base"]:
+                cfg["context"] = dict(c["base"])
+        elif c.get("explicit_none") and not c["root"]:
+            cfg["root_dir"] = None                           # documented as "not set"
+            cfg["env"] = {}
         self.eng = J.get_instance(cfg)
 
     def link(self, alias, link_text):
@@ -589,6 +603,31 @@ class C17(Check):
         for root, cache, rel in self.configs():
             for chain in ((17, 10), (40, 200)) if tier != "quick" or (root, cache) in ((False, True), (True, True)) else ((17, 200),):
                 yield {"kind": 0, "root": root, "cache": cache, "rel": rel, "base": [], "relname": False, "chain": chain, "history": ["Rc", "Rc"]}
+        # an OPTIONAL include / import target that was rendered (and cached) and then disappears: deleted, replaced by a
+        # directory, its parent directory gone; renders go on (nothing for the optional include) and it comes back later
+        for root, cache, rel in self.configs():
+            tgt = "Dj" if rel else "Di"
+            back = "Ej" if rel else "Ei"
+            xd = "Xj" if rel else "Xi"
+            for h in (["R", tgt, "R", "R"], ["R", tgt, "R", back, "R", tgt, "R"], ["R", xd, "R", "R", back, "R"], [tgt, "R", back, "R", tgt, "R", "R"]):
+                n += 1
+                yield {"kind": 0, "root": root, "cache": cache, "rel": rel, "base": [], "relname": (n % 3 == 0), "history": h,
+                       "main_variant": ("inc.txt", 4, "lib.txt")}
+        # a loader handed in through `env` (FileSystemLoader, ChoiceLoader, ChoiceLoader with a PrefixLoader in front):
+        # relative_includes (explicit or the default) and the configured context apply as with root_dir
+        for kind in ("fsl", "choice", "prefix"):
+            for rel in (True, False):
+                for h in (["R", "Rr"], ["R", "Em", "R", "Ej", "R"], ["R", "Ei", "Ej", "R", "Rr"], ["R", "Zj", "R", "Ej", "R"]):
+                    n += 1
+                    yield {"kind": 0, "root": True, "cache": True, "rel": rel, "base": [("a", "CFG")] if n % 2 else [], "relname": False,
+                           "envloader": kind, "rel_default": (n % 3 == 0), "history": h}
+                for inc in DOTTED_NAMES[:8]:
+                    yield {"kind": 0, "root": True, "cache": True, "rel": rel, "base": [], "relname": False, "envloader": kind,
+                           "rel_default": True, "history": ["R", "R"], "main_variant": (inc, 2, "lib.txt")}
+        for cache in (True, False):
+            for rel in (True, False):
+                yield {"kind": 0, "root": False, "cache": cache, "rel": rel, "base": [], "relname": False, "explicit_none": True,
+                       "history": ["R", "Ej", "Ei", "R", "Rr"]}
         # symbolic links in the tree: a template reached through a link to the FILE or through a link to a parent DIRECTORY
         # resolves its relative includes next to the path it was ASKED for (the loaders never resolve links); re-pointing a
         # link is an edit of that path. The expectation comes from the model, not from a fresh engine.
@@ -725,6 +764,8 @@ class C17(Check):
                     "config_context": repr(c["base"]), "caller_context": repr(c.get("caller")), "relative_template_name": c["relname"],
                     "history": c["history"], "working_directory_is_w/": bool(c.get("cwdsub")),
                     "w/top.txt(include name, kind, import name)": c.get("top_variant"), "include_chain(depth, name padding)": c.get("chain"), "symbolic_links_in_the_tree": bool(c.get("symlinks")),
+                    "loader_through_env_option": c.get("envloader"), "relative_includes_left_to_default": bool(c.get("rel_default")),
+                    "root_dir_None_and_empty_env": bool(c.get("explicit_none")),
                     "sub/main.txt(include name, 2=include 4=ignore missing, import name)": c.get("main_variant"),
                     "legend": "setup writes 8 files; Em/Ei/Ej/El/Ek edit sub/main, inc, sub/inc, lib, sub/lib; Di/Dj delete "
                               "inc, sub/inc; R renders sub/main.txt, Rr renders main.txt",
